@@ -43,17 +43,27 @@ def _mk_args(start, stop, step, form):
     return (start, stop, step)
 
 
-def check_slice_run(start: int, stop: int, step: int, n: int) -> bool:
+def _values(n, none_at):
+    """Flow of n distinct values; position none_at (if inside) holds None -
+    a legitimate value that must not be mistaken for the end of the flow."""
+    xs = list(range(n))
+    if 0 <= none_at < n:
+        xs[none_at] = None
+    return xs
+
+
+def check_slice_run(start: int, stop: int, step: int, n: int, none_at: int) -> bool:
     """
     pre: (-B.S <= start <= B.S) or start == NONE
     pre: (-B.S <= stop <= B.S) or stop == NONE
     pre: (1 <= step <= B.STEP) or step == NONE
     pre: 0 <= n <= B.N
+    pre: -1 <= none_at <= 1
     pre: h.in_shard((start + B.S + 1) if start != NONE else 0)
     post: _
     """
     a, b, c = _dec(start), _dec(stop), _dec(step)
-    xs = list(range(n))
+    xs = _values(n, none_at)
     with patched_deque():
         s = Slice(*_mk_args(a, b, c, 2))
         got = list(s.run(iter(xs)))
@@ -139,8 +149,10 @@ def check_reverse(xs: List[int]) -> bool:
     pre: len(xs) <= B.N
     post: _
     """
-    got = list(Reverse().run(iter(xs)))
-    return h.ok(got == list(reversed(xs)))
+    el = Reverse()
+    got = list(el.run(iter(xs)))
+    again = list(el.run(iter(xs)))
+    return h.ok(got == list(reversed(xs)) and again == got)
 
 
 def check_chain(a: List[int], b: List[int], c: List[int], k: int) -> bool:
@@ -150,8 +162,10 @@ def check_chain(a: List[int], b: List[int], c: List[int], k: int) -> bool:
     post: _
     """
     its = [a, b, c][:k]
-    got = list(Chain(*its)())
-    return h.ok(got == list(itertools.chain(*its)))
+    ch = Chain(*its)
+    got = list(ch())
+    again = list(ch())
+    return h.ok(got == list(itertools.chain(*its)) and again == got)
 
 
 def check_count_from(a: int, d: int, k: int) -> bool:
@@ -160,8 +174,12 @@ def check_count_from(a: int, d: int, k: int) -> bool:
     pre: 0 <= k <= 4
     post: _
     """
-    got = list(itertools.islice(CountFrom(a, d)(), k))
-    return h.ok(got == [a + i * d for i in range(k)])
+    cf = CountFrom(a, d)
+    got = list(itertools.islice(cf(), k))
+    # every call starts a new count (like a new itertools.count)
+    again = list(itertools.islice(cf(), k))
+    want = [a + i * d for i in range(k)]
+    return h.ok(got == want and again == want)
 
 
 def _star(*args):
@@ -189,8 +207,8 @@ def check_running_chunk(xs: List[int], size: int, kind: int) -> bool:
 
 CONDITIONS = [
     dict(fn="check_slice_run", shards=(10, 16), budget=(80, 1200),
-         smoke=["check_slice_run(-2, -1, 99, 3)", "check_slice_run(99, 2, 99, 4)",
-                "check_slice_run(-3, 2, 2, 5)"]),
+         smoke=["check_slice_run(-2, -1, 99, 3, -1)", "check_slice_run(99, 2, 99, 4, 0)",
+                "check_slice_run(-3, 2, 2, 5, 1)", "check_slice_run(99, -2, 99, 5, 1)"]),
     dict(fn="check_slice_forms", shards=(3, 6), budget=(60, 200),
          smoke=["check_slice_forms(99, 2, 99, 3, 0)", "check_slice_forms(1, -1, 99, 3, 1)"]),
     dict(fn="check_slice_bad_step", budget=(40, 120), smoke=["check_slice_bad_step(1, 2, 0)"]),
